@@ -180,7 +180,13 @@ class CFG(object):
                 # second pass over the same statements leading to RAISE
                 res = self._block(s.finalbody, res)
             return res
-        if isinstance(s, (ast.With, ast.AsyncWith, ast.Match, ast.AsyncFor, ast.TryStar)):
+        if isinstance(s, ast.With):
+            # the context expressions are evaluated (and bound) at a header node, then the body runs; exceptions leave
+            # through the enclosing handlers like those of any other statement (a suppressing __exit__ is not modelled)
+            n = self._new('with', s)
+            self._connect(preds, n)
+            return self._block(s.body, [(n, 'next')])
+        if isinstance(s, (ast.AsyncWith, ast.Match, ast.AsyncFor, ast.TryStar)):
             raise AnalysisError('statement kind %s not supported by the CFG builder (line %d)'
                                 % (type(s).__name__, s.lineno))
         raise AnalysisError('unknown statement kind %s (line %d)' % (type(s).__name__, getattr(s, 'lineno', 0)))
@@ -293,6 +299,12 @@ def node_defs(n):
         return assigned_names(a.target)
     if n.kind == 'except':
         return [a.name] if a.name else []
+    if n.kind == 'with':
+        out = []
+        for i in a.items:
+            if i.optional_vars is not None:
+                out.extend(assigned_names(i.optional_vars))
+        return out
     if n.kind in ('stmt',):
         if isinstance(a, ast.Assign):
             out = []
@@ -320,6 +332,8 @@ def node_exprs(n):
         return [a.iter]
     if n.kind == 'except':
         return [a.type] if a.type is not None else []
+    if n.kind == 'with':
+        return [i.context_expr for i in a.items]
     if isinstance(a, (ast.FunctionDef, ast.ClassDef, ast.AsyncFunctionDef)):
         return []
     return [a]
